@@ -37,6 +37,9 @@ def cfg(short, dotted, classes, instance, maxops, emit=False):
 
 
 # ------------------------------------------------------------------------- real-code side
+_AUX: dict = {}
+
+
 def _mk_classes(names, kind):
     """Marker plugin classes whose full_plugin_name is exactly the spec's class name."""
     from glotaran.io.interface import DataIoInterface, ProjectIoInterface
@@ -46,7 +49,13 @@ def _mk_classes(names, kind):
     for full in names:
         mod, name = full.rsplit(".", 1)
         if kind == "megacomplex":
-            cls = type(name, (Megacomplex,), {"__module__": mod, "__annotations__": {}})
+            from glotaran.model import DatasetModel
+            from glotaran.model.item import item as _item
+            from glotaran.model.megacomplex import megacomplex as _mc_decorator
+            # a real megacomplex item class (no default for `type`, hence no automatic registration by the decorator) that brings its own
+            # dataset model type along: the model class built by load_model shows which plugin the name resolved to
+            ds = _item(type("DS_" + name + "_" + mod.replace(".", "_"), (DatasetModel,), {"__module__": mod, "__annotations__": {f"opt_{name}": int}, f"opt_{name}": 1}))
+            cls = _mc_decorator(dataset_model_type=ds)(type(name, (Megacomplex,), {"__module__": mod, "__annotations__": {}}))
         elif kind == "data_io":
             def load_dataset(self, file_name, **kw):
                 import xarray as xr
@@ -240,7 +249,31 @@ class Replayer:
     def _dispatch(self, k, dio, pio):
         """load_* / save_* with given and inferred format must reach whatever the registry resolves."""
         if self.kind == "megacomplex":
-            return None
+            # model-class creation from registered types: load_model builds the model class from whatever the name resolves to NOW (seen through
+            # the dataset model type the plugin brings along); the item class of `type: k` itself comes from the item-type table, for which an
+            # auxiliary item class with that type name is defined once (not a plugin: defined without the registering decorator)
+            from glotaran.io import load_model
+            from glotaran.model import Megacomplex
+            from glotaran.model.item import item as _item
+            if "." in k:
+                return None
+            if k not in _AUX:
+                _AUX[k] = _item(type("Aux_" + k, (Megacomplex,), {"__module__": "verif.aux", "__annotations__": {"type": str, "dimension": str}, "type": k, "dimension": "time"}))
+            spec = f"megacomplex:\n  m1:\n    type: '{k}'\ndataset:\n  d1:\n    megacomplex: [m1]\n"
+            out = []
+            for how in ("load_model/yml_str", "load_model/yml_str again"):       # twice: a cache keyed by the name would answer the second call
+                called, derr = None, None
+                try:
+                    with warnings.catch_warnings():
+                        warnings.simplefilter("ignore")
+                        m = load_model(spec, format_name="yml_str")
+                    dsm = m.dataset["d1"]
+                    owner = [full for full, c in self.classes.items() if c.get_dataset_model_type() is not None and isinstance(dsm, c.get_dataset_model_type())]
+                    called = ("load_model", owner[0] if len(owner) == 1 else f"dataset model of {owner}", "")
+                except ValueError as ex:
+                    derr = f"ValueError: {str(ex)[:120]}"
+                out.append((how, called, derr))
+            return out
         res = []
         import xarray as xr
         ds = xr.Dataset({"data": (("time", "spectral"), [[1.0]])}, coords={"time": [0], "spectral": [0]})
